@@ -547,6 +547,69 @@ func runC24(c *Ctx) {
 		}
 	}
 	c.Check(nStores >= 1, r7, sfShort+".SharedFile:stores", 0, itoa(nStores)+" descriptor-installing assignments examined")
+	checkHandleFollowsList(c, "handle-cleared-with-list-removal")
+	c.Floor("handle-cleared-with-list-removal", 2)
+}
+
+// checkHandleFollowsList (C24): a Handle's `elem` field says whether its Member is in the pool's LRU list; Touch decides
+// hit or registration from it. The two must agree whenever the pool's mutex is released: after lru.Remove(x) the
+// handle's elem is set to nil before the next Unlock (or return, with the deferred Unlock). If the clear is postponed
+// past an unlocked window, a Touch in that window takes the hit path on an element that is no longer in the list
+// (MoveToFront on a removed element does nothing): the member stays open and the pool no longer knows it.
+func checkHandleFollowsList(c *Ctx, rule string) {
+	p := c.P
+	const fp = "x/fdpool"
+	pk := p.Pkg(fp)
+	if pk == nil {
+		c.Unresolved(rule, "package "+fp, 0, "not loaded")
+		return
+	}
+	info := pk.TypesInfo
+	for _, fi := range p.FuncsIn(fp) {
+		if fi.Decl.Body == nil || p.isTestFile(fi.Decl.Pos()) {
+			continue
+		}
+		isRemove := func(call *ast.CallExpr) bool {
+			fn := Callee(info, call)
+			return fn != nil && fn.Name() == "Remove" && fn.Pkg() != nil && fn.Pkg().Path() == "container/list"
+		}
+		if nodeHasCall(fi.Decl.Body, false, isRemove) == nil {
+			continue
+		}
+		f := p.FlowOf(fi)
+		clears := func(nd ast.Node) bool {
+			as, ok := nd.(*ast.AssignStmt)
+			if !ok {
+				return false
+			}
+			for i, l := range as.Lhs {
+				if sel, ok := unparen(l).(*ast.SelectorExpr); ok && sel.Sel.Name == "elem" && i < len(as.Rhs) && isNil(info, as.Rhs[i]) {
+					return true
+				}
+			}
+			return false
+		}
+		releases := func(nd ast.Node) bool {
+			if _, isRet := nd.(*ast.ReturnStmt); isRet {
+				return true
+			}
+			if _, isDefer := nd.(*ast.DeferStmt); isDefer {
+				return false
+			}
+			return nodeHasCall(nd, false, func(call *ast.CallExpr) bool {
+				sel, ok := unparen(call.Fun).(*ast.SelectorExpr)
+				return ok && sel.Sel.Name == "Unlock"
+			}) != nil
+		}
+		k := 0
+		for _, loc := range f.Locs(CallNode(false, isRemove)) {
+			k++
+			c.Analysed(fi)
+			h := f.Search(SearchOpts{Starts: []Loc{After(loc)}, Sink: releases, Barrier: clears})
+			c.Check(h == nil, rule, fi.Name()+"->lru.Remove"+ifStr(k > 1, "#"+itoa(k)), loc.B.Nodes[loc.Idx].Pos(), orStr(ifStr(h != nil, "an element is removed from the LRU list and the pool's lock is released (or the function returns) before the member's handle is cleared: in that window the handle still says 'registered', a Touch takes the hit path on a removed element and the member's descriptor is open without the pool knowing it"),
+				"the handle is cleared in the same critical section as the removal from the list"))
+		}
+	}
 }
 
 func ifStr(b bool, s string) string {
